@@ -33,6 +33,16 @@ LIBRARY_CLASSES = frozenset({
     'Pallet', 'PriorityGet', 'PriorityPut', 'PriorityReqStore', 'ReservablePriorityReqFilterStore', 'ReservablePriorityReqStore',
     'ReservableReqStore', 'Sink', 'SortedQueue', 'Source', 'Splitter'})
 
+# private method names of the library as published: a private method with any *other* name that several classes define (a helper introduced by a
+# refactoring, one copy per class) is renamed apart per class so that the helper-inlining steps can resolve it
+LIBRARY_PRIVATE_METHODS = frozenset({
+    '_add_trigger_event', '_analyze_pattern_for_interruption', '_buffer_stats_collector', '_calculate_gap_based_interruptions', '_conveyor_stats_collector', '_count_worker_state',
+    '_dbg', '_delayed_interrupt', '_do_get', '_do_get1', '_do_put', '_do_reserve_get',
+    '_do_reserve_put', '_execute_interruption_plan', '_fleet_stats_collector', '_get_belt_pattern', '_get_in_edge_index', '_get_out_edge_index',
+    '_has_consecutive_items', '_interrupt_specific_item', '_pull_item', '_push_item', '_stats_collector1', '_trigger_get',
+    '_trigger_put', '_trigger_reserve_get', '_trigger_reserve_put', '_update_avg_time_spent_in_blocked', '_update_avg_time_spent_in_processing', '_update_time_averaged_level',
+    '_update_worker_occupancy'})
+
 
 def _is_private(name: str) -> bool:
     return name.startswith('_') and not (name.startswith('__') and name.endswith('__'))
@@ -161,6 +171,8 @@ def flatten(trees: Dict[str, ast.Module], vocab=frozenset(), log: Optional[List[
     classes, visible = _resolve(trees)
     helpers = [c for c in classes.values() if c.subs and c.name not in LIBRARY_CLASSES and c.name not in vocab]
     if not helpers:
+        new_dups = {m for c in classes.values() for m in c.methods() if _is_private(m) and m not in LIBRARY_PRIVATE_METHODS}
+        stats['hooks_renamed'] = _rename_hooks_apart(trees, vocab, log, new_dups)
         return stats
     # side condition: a helper base is used only as a base class (and in imports)
     hnames = {h.name for h in helpers}
@@ -306,7 +318,7 @@ def flatten(trees: Dict[str, ast.Module], vocab=frozenset(), log: Optional[List[
                 n.names = [a for a in n.names if a.name not in gone]
                 if not n.names:
                     tree.body.remove(n)
-    hook_names = {m for h in helpers for m in h.methods()}
+    hook_names = {m for h in helpers for m in h.methods()} | {m for c in classes.values() for m in c.methods() if _is_private(m) and m not in LIBRARY_PRIVATE_METHODS}
     stats['hooks_renamed'] = _rename_hooks_apart(trees, vocab, log, hook_names)
     return stats
 
@@ -456,3 +468,81 @@ def _rename_hooks_apart(trees, vocab, log, hook_names) -> int:
             n_ren += 1
             log.append(f'N0: hook {c.name}.{name} -> {new}')
     return n_ren
+
+
+# ------------------------------------------------------------------------------------------------ record types (NamedTuple)
+def records_to_tuples(trees: Dict[str, ast.Module], log: Optional[List[str]] = None) -> int:
+    """A `typing.NamedTuple` class of the package that merely names the fields of a tuple the library used to build by hand (`_Entry(item, delay)` for
+    `(item, delay)`): constructor calls become tuple displays, `x.field` becomes `x[i]` (receiver other than `self`: `self.delay` is the edge's own
+    attribute), a classmethod that only coerces (`return pair` / `return cls(*pair)`) becomes its argument.  A NamedTuple *is* a tuple - indexing,
+    unpacking, equality and hashing are unchanged - so the rewritten program is the one the rules know."""
+    log = log if log is not None else []
+    recs: Dict[str, List[str]] = {}
+    coerce: Dict[Tuple[str, str], bool] = {}
+    for rel, tree in trees.items():
+        for n in tree.body:
+            if isinstance(n, ast.ClassDef) and any((isinstance(b, ast.Name) and b.id == 'NamedTuple') or (isinstance(b, ast.Attribute) and b.attr == 'NamedTuple') for b in n.bases):
+                fields = [st.target.id for st in n.body if isinstance(st, ast.AnnAssign) and isinstance(st.target, ast.Name)]
+                if not fields:
+                    continue
+                recs[n.name] = fields
+                for f in n.body:
+                    if isinstance(f, ast.FunctionDef) and any(isinstance(d, ast.Name) and d.id == 'classmethod' for d in f.decorator_list) and len(f.args.args) == 2:
+                        par = f.args.args[1].arg
+                        rets = [x for x in ast.walk(f) if isinstance(x, ast.Return)]
+                        ok = bool(rets)
+                        for r_ in rets:
+                            v = r_.value
+                            same = isinstance(v, ast.Name) and v.id == par
+                            built = isinstance(v, ast.Call) and isinstance(v.func, ast.Name) and v.func.id == 'cls' and (
+                                (len(v.args) == 1 and isinstance(v.args[0], ast.Starred) and isinstance(v.args[0].value, ast.Name) and v.args[0].value.id == par) or
+                                (len(v.args) == len(fields) and all(isinstance(a, ast.Subscript) and isinstance(a.value, ast.Name) and a.value.id == par for a in v.args)))
+                            ok = ok and (same or built)
+                        coerce[(n.name, f.name)] = ok
+    if not recs:
+        return 0
+    field_index: Dict[str, int] = {}
+    ambiguous = set()
+    for cname, fields in recs.items():
+        for i, f in enumerate(fields):
+            if f in field_index and field_index[f] != i:
+                ambiguous.add(f)
+            field_index[f] = i
+    count = [0]
+
+    class T(ast.NodeTransformer):
+        def visit_Call(self, node):
+            self.generic_visit(node)
+            f = node.func
+            if isinstance(f, ast.Name) and f.id in recs and not any(isinstance(a, ast.Starred) for a in node.args) and all(k.arg for k in node.keywords):
+                fields = recs[f.id]
+                vals = list(node.args) + [None] * (len(fields) - len(node.args))
+                for k in node.keywords:
+                    if k.arg in fields:
+                        vals[fields.index(k.arg)] = k.value
+                if len(vals) == len(fields) and all(v is not None for v in vals):
+                    count[0] += 1
+                    return ast.copy_location(ast.Tuple(elts=vals, ctx=ast.Load()), node)
+            if isinstance(f, ast.Attribute) and isinstance(f.value, ast.Name) and coerce.get((f.value.id, f.attr)) and len(node.args) == 1 and not node.keywords:
+                count[0] += 1
+                return node.args[0]
+            return node
+
+        def visit_Attribute(self, node):
+            self.generic_visit(node)
+            if isinstance(node.ctx, ast.Load) and node.attr in field_index and node.attr not in ambiguous \
+                    and not (isinstance(node.value, ast.Name) and node.value.id in ('self', 'cls')):
+                count[0] += 1
+                return ast.copy_location(ast.Subscript(value=node.value, slice=ast.Constant(value=field_index[node.attr]), ctx=ast.Load()), node)
+            return node
+    for rel, tree in trees.items():
+        new_body = []
+        for n in tree.body:
+            if isinstance(n, ast.ClassDef) and n.name in recs:
+                new_body.append(n)          # the record class itself stays (nothing refers to it any more)
+                continue
+            new_body.append(T().visit(n))
+        tree.body = new_body
+    if count[0]:
+        log.append(f'N0r: {count[0]} uses of record types {sorted(recs)} rewritten to plain tuples')
+    return count[0]
